@@ -51,8 +51,10 @@ ASSUMPTIONS = [
   "frame rule (syntactic, checked on the AST each run): a method that assigns no field and mutates only through methods under "
   "contract preserves WF (push_children, remove_children, remove, copy_to and the Ruby/Rtc wrappers, as far as W1-W3/W5 go)",
   "Ruby.push_children is proved for children that are individually pushable (detached distinct roots of the same document): only "
-  "the four patterns are accepted, pushed in order; partial application when a later child is not pushable, Rtc patterns and "
-  "sequence patterns as part of WF are bounded-only",
+  "the four patterns are accepted, pushed in order -- for EVERY list of 0..4 children over Rb, Rt, Rp, Rbc, Rtc, Span (1555 lists) plus the "
+  "one-element extensions of the longest valid patterns; Rtc.push_children likewise for every list of 0..5 children over Rt, Rp, Rb, Span "
+  "(rtc = rt* | rp rt* rp); longer lists, partial application when a later child is not pushable, and sequence patterns as part of "
+  "WF are bounded-only",
 ]
 
 
@@ -315,13 +317,26 @@ def h_iter_membership():
                  "x in list(element)  <=>  parent(x) is element  (from the __iter__ contract and W1 index range / injectivity)")
 
 
-def h_ruby_push_children(pattern):
-  """Ruby.push_children with a list of individually pushable children of the given kinds"""
+def pattern_valid(owner, names):
+  """TTML2 content model of ruby containers, as a predicate on the list of child class names (written from the specification:
+  ruby = rb rt | rb rp rt rp | rbc rtc rtc?;  rtc = rt* | rp rt* rp)"""
+  if owner == "Ruby":
+    return names in (["Rb", "Rt"], ["Rb", "Rp", "Rt", "Rp"], ["Rbc", "Rtc"], ["Rbc", "Rtc", "Rtc"])
+  if all(n == "Rt" for n in names):
+    return True
+  if names == ["Rp", "Rp"]:
+    return None        # rp rt* rp with no rt: TTML2 is read both ways (the model rejects it); either behaviour is accepted
+  return len(names) > 2 and names[0] == "Rp" and names[-1] == "Rp" and all(n == "Rt" for n in names[1:-1])
+
+
+def h_ruby_push_children(pattern, owner=None):
+  """Ruby.push_children / Rtc.push_children with a list of individually pushable children of the given kinds"""
+  owner = owner or model.Ruby
   names = [c.__name__ for c in pattern]
-  valid = names in (["Rb", "Rt"], ["Rb", "Rp", "Rt", "Rp"], ["Rbc", "Rtc"], ["Rbc", "Rtc", "Rtc"])
+  valid = pattern_valid(owner.__name__, names)
 
   def run(ctx):
-    s = Setup(ctx, model.Ruby, with_root=True)
+    s = Setup(ctx, owner, with_root=True)
     ctx.heapctx.stubs[model.ContentElement.root] = root_stub(s)
     S = z3.Select
     me, g0, h0 = s.self_.term, s.g0, s.h0
@@ -338,7 +353,10 @@ def h_ruby_push_children(pattern):
       if valid:
         prove(SymBool(S(h0.arrays["_first_child"], me) != NULL), "a-valid-pattern-is-only-rejected-when-the-ruby-has-children")
       return
-    prove(valid, "only-a-valid-ruby-pattern-is-accepted")
+    prove(valid is not False, "only-a-valid-ruby-pattern-is-accepted")
+    if not kids:
+      s.unchanged()
+      return
     rank1, ax = define_array("rank1", lambda a: z3.If(z3.Or(*[s.root(a) == k.term for k in kids]),
                                                        S(g0.rank, a) + S(g0.rank, me) + 1 - S(g0.rank, s.root(a)), S(g0.rank, a)))
     idx1, cnt1 = g0.idx, g0.cnt
@@ -352,14 +370,39 @@ def h_ruby_push_children(pattern):
                            S(h1.arrays["_next_sibling"], k.term) == (kids[j + 1].term if j + 1 < len(kids) else NULL))),
             f"post/child{j}-in-place")
     prove(SymBool(z3.And(S(h1.arrays["_first_child"], me) == kids[0].term, S(h1.arrays["_last_child"], me) == kids[-1].term)), "post/first-last")
-  return Harness(f"Ruby.push_children[{','.join(names)}]", run, [M + "Ruby.push_children", M + "ContentElement.push_child"],
-                 "replayers.c15:heap_cex", {"op": "push_children", "cls": "Ruby", "kinds": KIND_NAMES},
-                 "ruby children are accepted only in the four TTML patterns, pushed in order, WF preserved; a rejected call changes nothing")
+  return Harness(f"{owner.__name__}.push_children[{','.join(names)}]", run, [M + owner.__name__ + ".push_children", M + "ContentElement.push_child"],
+                 "replayers.c15:heap_cex", {"op": "push_children", "cls": owner.__name__, "kinds": KIND_NAMES, "pattern": names},
+                 "ruby / rtc children are accepted only in the TTML2 patterns, pushed in order, WF preserved; a rejected call changes nothing")
 
 
-RUBY_PATTERNS = [[model.Rb, model.Rt], [model.Rb, model.Rp, model.Rt, model.Rp], [model.Rbc, model.Rtc], [model.Rbc, model.Rtc, model.Rtc],
-                 [model.Rt, model.Rb], [model.Rb], [model.Rb, model.Rt, model.Rp], [model.Rbc, model.Rt], [model.Span, model.Rt],
-                 [model.Rb, model.Rp, model.Rt]]
+def _ruby_patterns():
+  """EVERY sequence of 0..4 children over the five ruby child classes and Span (a class that is never a ruby child), and the
+  one-element extensions of the two longest valid patterns: 1 + 6 + 36 + 216 + 1296 + 12 lists, four of them valid"""
+  import itertools
+  kinds = [model.Rb, model.Rt, model.Rp, model.Rbc, model.Rtc, model.Span]
+  out = []
+  for n in range(0, 5):
+    out += [list(t) for t in itertools.product(kinds, repeat=n)]
+  for base in ([model.Rb, model.Rp, model.Rt, model.Rp], [model.Rbc, model.Rtc, model.Rtc, model.Rtc]):
+    out += [base + [k] for k in kinds]
+  return out
+
+
+RUBY_PATTERNS = _ruby_patterns()
+
+
+def _rtc_patterns():
+  """EVERY sequence of 0..5 children over Rt, Rp, Rb and Span (1365 lists), and rp rt rt rt rt rp"""
+  import itertools
+  kinds = [model.Rt, model.Rp, model.Rb, model.Span]
+  out = []
+  for n in range(0, 6):
+    out += [list(t) for t in itertools.product(kinds, repeat=n)]
+  out.append([model.Rp, model.Rt, model.Rt, model.Rt, model.Rt, model.Rp])
+  return out
+
+
+RTC_PATTERNS = _rtc_patterns()
 
 
 def h_push_child(cls):
@@ -663,6 +706,8 @@ def all_harnesses(tier):
   hs.append(h_iter_membership())
   for pat in RUBY_PATTERNS:
     hs.append(h_ruby_push_children(pat))
+  for pat in RTC_PATTERNS:
+    hs.append(h_ruby_push_children(pat, model.Rtc))
   for label, cs in implementations("remove_child"):
     hs.append(h_remove_child(cs if len(cs) > 1 else cs[0], label))
   for label, cs in implementations("remove"):
